@@ -1498,6 +1498,12 @@ namespace awkward {
       return nextcontent.get()->getitem_next(nexthead, nexttail, nextadvanced);
     }
     else {
+      if (advanced.length() != len) {
+        throw std::invalid_argument(
+          std::string("cannot fit the pairing of an earlier array index (length ")
+          + std::to_string(advanced.length()) + std::string(") to this dimension (length ")
+          + std::to_string(len) + std::string(")") + FILENAME(__LINE__));
+      }
       Index64 nextcarry(len);
       Index64 nextadvanced(len);
 
